@@ -120,7 +120,43 @@ def d_move_parked(name, seed, base):
     return s
 
 
-DIRECTED = [("k2_remove", lambda n, sd, b: d_k2(n, sd, b, "remove")), ("k2_softlink", lambda n, sd, b: d_k2(n, sd, b, "softlink")),
+def d_cli_isolate(name, seed, base):
+    """--isolate <dir> on the DEDUPE command line, the dir covering none of the files of the group: the uncovered files must
+    still be grouped by device+inode.  Variant A: -S, 0link -> a, a, b (the link sorts first); remove / move / link --soft.
+    Variant B: hard-link pair p, q + independent copy z, -n 2: the pair is ONE replica, z must stay."""
+    rng = core.SplitMix64(seed)
+    s = X.Scn(name, seed, base)
+    data = treegen.content(seed, 60)
+    s.roots = [os.path.join(s.treedir, b"data")]
+    variant = "A" if name.split("_")[2] in ("a", "c") else "B"
+    if variant == "A":
+        s.mk(b"data/a", data)
+        s.mk(b"data/b", data)
+        s.sym(os.path.join(s.treedir, b"data/a"), b"data/0link")
+        s.group_opts = ["--symbolic-links"]
+    else:
+        s.mk(b"data/p", data)
+        s.ln(b"data/p", b"data/q")
+        s.mk(b"data/z", data)
+    s.mk(b"vault/other", treegen.content(seed + 3, 20))
+    s.stamp_mtimes(rng)
+    s.fmt = rng.choice(["default", "json"])
+    X.pick_opts(s, core.SplitMix64(0), op=rng.choice(["remove", "move", "softlink"] if variant == "A" else ["remove", "move", "link", "softlink"]))
+    vault = os.path.join(s.treedir, b"vault")
+    s.op_opts = ["--isolate", vault.decode()]
+    s.sem = {"n": None, "prio": [], "keep_name": [], "keep_path": [], "name": [], "path": [], "iso": [vault], "mlinks": False}
+    if variant == "B":
+        s.op_opts += ["-n", "2"]
+        s.sem["n"] = 2
+    s.no_lock = False
+    s.fake_mount = False
+    s.use_sym, s.hostile = variant == "A", False
+    s.notes.append("dedupe-side --isolate on a directory that covers no file of the group (variant %s)" % variant)
+    return s
+
+
+DIRECTED = [("cli_isolate_a", d_cli_isolate), ("cli_isolate_b", d_cli_isolate), ("cli_isolate_c", d_cli_isolate), ("cli_isolate_d", d_cli_isolate),
+            ("k2_remove", lambda n, sd, b: d_k2(n, sd, b, "remove")), ("k2_softlink", lambda n, sd, b: d_k2(n, sd, b, "softlink")),
             ("k2_link", lambda n, sd, b: d_k2(n, sd, b, "link")), ("k7", d_k7),
             ("linkset_rf2_a", d_linkset_rf2), ("linkset_rf2_b", d_linkset_rf2), ("linkset_rf2_c", d_linkset_rf2),
             ("move_parked_a", d_move_parked), ("move_parked_b", d_move_parked)]
@@ -172,7 +208,7 @@ def run_case(model, scratch, kind, idx, seed):
                     ("n_effective", eff["n"]), ("groups", min(len(groups), 8)), ("files_changed", min(len(changed), 10)),
                     ("priority", ",".join(s.sem["prio"]) or "-"),
                     ("patterns", "+".join(k for k in ("keep_name", "keep_path", "name", "path") if s.sem[k]) or "-"),
-                    ("cli_isolate", int(bool(s.sem["iso"]))), ("cli_match_links", int(s.sem["mlinks"])),
+                    ("cli_isolate", s.sem.get("iso_kind", "directed" if s.sem["iso"] else "-")), ("cli_match_links", int(s.sem["mlinks"])),
                     ("lock", "no-lock" if s.no_lock else "lock"), ("kind", kind if kind.startswith("random") else "directed")]
     if s.op == "move":
         out["bump"].append(("move_dir", ("inside" if s.move_dir.startswith(s.treedir) else "outside") + ("+other_mount" if s.fake_mount else "")))
@@ -227,6 +263,76 @@ def run_case(model, scratch, kind, idx, seed):
     return out
 
 
+def fault_move_case(scratch, idx, seed):
+    """`move` by copy (the target directory registered as another mount) with a write fault on the LAST block of the copy: a
+    per-process file size limit (RLIMIT_FSIZE, SIGXFSZ ignored) makes write(2) / copy_file_range fail with EFBIG at a chosen
+    offset, exactly like ENOSPC on a full target.  Oracle (clause 4 of C02 for move, under this one fault): every reported
+    path still holds its bytes at the original path, or a COMPLETE copy is readable at move_target; never neither."""
+    import resource
+    import signal
+    import subprocess
+    name = "move_fault_%d" % idx
+    base = os.path.join(scratch, name).encode()
+    os.makedirs(base, exist_ok=True)
+    out = {"viol": [], "bump": [("kind", "directed"), ("op", "move+write_fault")], "nontrivial": True, "key": ("move_fault", seed), "count": 1,
+           "sample": None}
+    rng = core.SplitMix64(seed)
+    s = X.Scn(name, seed, base)
+    size = rng.choice([6000, 9000, 20000, 20480, 33000])
+    limit_kib = max(1, (size - 1 - rng.below(3000)) // 1024)        # the limit cuts inside the last 8 KiB of the file
+    data = treegen.content(seed, size)
+    s.roots = [os.path.join(s.treedir, b"r0")]
+    for n in (b"keep.bin", b"spare.bin", b"sub/third.bin")[:2 + rng.below(2)]:
+        s.mk(b"r0/" + n, data)
+    s.stamp_mtimes(rng)
+    s.fmt = rng.choice(["default", "json"])
+    X.pick_opts(s, core.SplitMix64(0), op="move")
+    s.op_opts, s.sem = [], {"n": None, "prio": [], "keep_name": [], "keep_path": [], "name": [], "path": [], "iso": [], "mlinks": False}
+    s.move_dir = os.path.join(s.base, b"moved")
+    s.fake_mount, s.no_lock = True, False
+    payload = dict(s.describe(), kind="move_fault", index=idx, file_size=size, rlimit_fsize_kib=limit_kib,
+                   replay_how="(trap '' XFSZ; ulimit -f %d; FCLONES_VERIF_MOUNTS=unknown=<DIR> fclones move <DIR> < report) on files of %d bytes" % (limit_kib, size))
+    try:
+        groups = s.make_report()
+    except RuntimeError as e:
+        out["viol"].append(({"kind": "group_failed"}, str(e), payload, False))
+        return out
+    inv0 = X.inventory(s.base)
+
+    def limited():
+        signal.signal(signal.SIGXFSZ, signal.SIG_IGN)
+        resource.setrlimit(resource.RLIMIT_FSIZE, (limit_kib * 1024, limit_kib * 1024))
+    env = dict(os.environ)
+    env.update(s.env())
+    env.setdefault("NO_COLOR", "1")
+    p = subprocess.run([os.path.join(core.BIN, "fclones")] + s.cli(), cwd=s.base, env=env, input=s.report, stdout=subprocess.PIPE,
+                       stderr=subprocess.PIPE, preexec_fn=limited, timeout=120)
+    inv1 = X.inventory(s.base)
+    payload["stderr"] = p.stderr.decode("utf-8", "replace")[-1200:]
+    out["bump"] += [("fault_file_size", size), ("format", s.fmt)]
+    for g in groups:
+        for pth in g["files"]:
+            before = X.read_sha(inv0, pth)
+            if before is None:
+                continue
+            at_path = X.read_sha(inv1, pth) == before
+            tgt = X.move_target(s.move_dir, pth)
+            at_target = X.read_sha(inv1, tgt) == before
+            if not at_path and not at_target:
+                e = inv1.get(tgt)
+                out["viol"].append(({"kind": "moved_source_deleted_without_complete_copy"},
+                                    "write fault on the last block of a move-by-copy: %r is gone and the copy at %r is %s" % (
+                                        pth, tgt, "missing" if e is None else "truncated to %s of %d bytes" % (e[7], size)),
+                                    payload, True))
+    summ = X.summary(p.stderr)
+    moved = [pth for g in groups for pth in g["files"] if pth not in inv1]
+    if summ is not None and summ["n"] != len(moved):
+        out["viol"].append(({"kind": "move_fault_miscounted"}, "Processed %d files but %d sources are gone" % (summ["n"], len(moved)), payload, True))
+    out["sample"] = {"scenario": name, "size": size, "limit_kib": limit_kib, "moved": len(moved), "stderr_tail": payload["stderr"][-200:]}
+    shutil.rmtree(base, ignore_errors=True)
+    return out
+
+
 def run(ctx):
     ctx.rule = ("case = (generated tree, `group` options recorded in the header, report format, dedupe operation, its options); "
                 "non-trivial = the report has groups and the run changed at least one file; distinct = distinct scenario seed. "
@@ -254,8 +360,16 @@ def run(ctx):
         n = ctx.pick(220, 4000)
         for i in range(n):
             cases.append(("random_sym" if i % 9 == 0 else "random", i, ctx.rng.next()))
+    fault_cases = []
+    if not ctx.replay:
+        fault_cases = [("move_fault", i, ctx.rng.next()) for i in range(ctx.pick(4, 40))]
+    elif cases and cases[0][0] == "move_fault":
+        fault_cases, cases = cases, []
     with ThreadPoolExecutor(max_workers=min(12, core.NCPU)) as ex:
         results = list(ex.map(lambda c: _guard(model, ctx.scratch, c), cases))
+        fresults = list(ex.map(lambda c: _guard_fault(ctx.scratch, c), fault_cases))
+    cases = cases + fault_cases
+    results = results + fresults
     for c, r in zip(cases, results):
         ctx.count(r["count"])
         ctx.distinct(r["key"], r["nontrivial"])
@@ -265,6 +379,16 @@ def run(ctx):
             ctx.sample(r["sample"])
         for sig, what, payload, found in r["viol"]:
             ctx.violation(sig, what, payload, found_input=found)
+
+
+def _guard_fault(scratch, c):
+    try:
+        return fault_move_case(scratch, c[1], c[2])
+    except Exception as e:
+        import traceback
+        return {"viol": [({"kind": "case_crashed"}, "case %r crashed: %r" % (c, e), {"kind": c[0], "index": c[1], "scenario_seed": c[2],
+                                                                                   "error": traceback.format_exc()[-2000:]}, False)],
+                "bump": [], "nontrivial": False, "key": c, "count": 0, "sample": None}
 
 
 def _guard(model, scratch, c):
